@@ -41,6 +41,11 @@ prop("C14",
      rule="generated documents mutated once (9 mutation kinds) x up to 5 paths x 6 checked get carriers, every prefix of small documents, get_many on the malformed stream, checked iterators; each returned span compared with the reference get on arbitrary bytes (Spec.Ref.ref_get = decision procedure of WfPrefix)",
      assumptions=[])
 
+prop("C09",
+     rule="sweep: literal length L x position p (around the 32/64-byte edges) x 34 byte classes (every escape form, bad escapes, lone/swapped surrogates, controls, valid and invalid multi-byte UTF-8) x embedding offset 0..64 x 13 decoders (String, &str, Cow field, in-place Value, copying Value, map key, object key, object-iterator key, LazyValue::as_str, get+as_str, IgnoredAny, lossy String/Value); code points through \\u escapes (boundaries + 3000 sampled; all 1,114,112 in the thorough tier); hooks hex_to_u32_nocheck / codepoint_to_utf8; generated literals; non-trivial = literal longer than 2 bytes",
+     unit_ops={"hex4", "utf8enc"},
+     assumptions=["the block structure of parse_string_raw/parse_string_escaped/parse_string_inplace is tied to the scalar decoders by the sweep (and by the generic block-scan theorem), not transcribed line by line"])
+
 def classify_known(pid, case, known):
     """return the id of the recorded known finding this mismatch belongs to, or None"""
     for k in known:
